@@ -53,6 +53,7 @@ class Recorder:
         self.scripts: dict[str, list[Any]] = {}
         self.call_seq = 0
         self.snapshot_indices: bool = False
+        self.index_ids: list[str] = []
         self.extra_call_fields: Callable[[dict[str, Any], dict[str, Any]], None] | None = None
 
     def now(self) -> float:
@@ -105,6 +106,16 @@ class Recorder:
         client = self.sim.kube.clients.get(inc) if inc else None
         if client is not None and client.dead:
             rec['post_mortem'] = True
+        if self.snapshot_indices:
+            snap = {}
+            for iid in self.index_ids:
+                idx = kw.get(iid)
+                if idx is not None:
+                    try:
+                        snap[iid] = {repr(k): sorted(repr(v) for v in idx[k]) for k in idx}
+                    except Exception as e:  # pragma: no cover
+                        snap[iid] = {'<error>': [repr(e)]}
+            rec['idx'] = snap
         if self.extra_call_fields is not None:
             self.extra_call_fields(rec, kw)
         self.events.append(rec)
@@ -239,6 +250,9 @@ def build_registry(rec: Recorder, specs: list[dict[str, Any]]) -> Any:
     registry = kopf.OperatorRegistry()
     for spec in specs:
         _register(rec, registry, spec)
+        if spec['kind'] == 'index':
+            rec.index_ids.append(spec['id'])
+            rec.snapshot_indices = True
     return registry
 
 
@@ -297,9 +311,9 @@ def _register(rec: Recorder, registry: Any, spec: dict[str, Any]) -> None:
             call = rec.call(hid, kind, kw)
             try:
                 atom = rec.next_atom(hid, call['uid'])
-                fn = spec.get('result_fn')
-                if fn is not None and atom == ['ok']:
-                    result = fn(**kw)
+                rule = spec.get('index_rule')
+                if rule is not None and atom == ['ok']:
+                    result = index_rule_result(rule, kw)
                 else:
                     result = await play(rec, call, atom, kw)
             except BaseException as e:
@@ -344,6 +358,36 @@ def _register(rec: Recorder, registry: Any, spec: dict[str, Any]) -> None:
         getattr(kopf.on, kind)(id=hid, registry=registry, **opts)(activity)
     else:
         raise ValueError(f"unknown handler kind {kind!r}")
+
+
+def index_rule_result(rule: dict[str, Any], kw: dict[str, Any]) -> Any:
+    """
+    The scripted result of an index function as a deterministic function of the object (so a reference model can recompute it):
+    spec[<mode_field>] in dict|multi|scalar|none|nonevals|temp|perm|arb; keys from spec.k / spec.k2, value '<name>:<spec.x>'.
+    """
+    import kopf
+    spec = kw['spec']
+    mode = spec.get(rule.get('mode_field', 'm'), 'dict')
+    val = f"{kw['name']}:{spec.get('x')}"
+    if mode == 'dict':
+        return {spec.get('k', 'k0'): val}
+    if mode == 'multi':
+        return {spec.get('k', 'k0'): val, spec.get('k2', 'k9'): val}
+    if mode == 'scalar':
+        return val
+    if mode == 'none':
+        return None
+    if mode == 'nonevals':
+        return {spec.get('k', 'k0'): None}
+    if mode == 'empty':
+        return {}
+    if mode == 'temp':
+        raise kopf.TemporaryError('scripted', delay=rule.get('delay', 2.0))
+    if mode == 'perm':
+        raise kopf.PermanentError('scripted')
+    if mode == 'arb':
+        raise ArbitraryError('scripted')
+    raise ValueError(mode)
 
 
 def _register_sub(rec: Recorder, parent: str, sub: dict[str, Any], uid: str | None) -> None:
